@@ -186,12 +186,17 @@ def run_tunnel(tag, cfg, seed, plan):
     t.pred = None
     if cfg.get("pred"):
         t.pred = predecessor(sim, random.Random(cfg["rseed"] ^ 0x5EED))
-    t.relay = sim.fault_relay(fault_profile(dict(cfg, fault=None), rng, 0, 0), seed=rng.getrandbits(32))
+    prof0 = fault_profile(dict(cfg, fault=None), rng, 0, 0)
+    if cfg.get("slow_start"):
+        # a slow but otherwise perfect path while the client starts up: every step of the handshake succeeds, late
+        prof0["base_latency"] = cfg["slow_start"]
+    t.relay = sim.fault_relay(prof0, seed=rng.getrandbits(32))
     t.clients = []
     for i in range(cfg["nclients"]):
         c = sim.client("cli%d" % i, "10.53.1.%d" % (i + 1), scen.RELAY_IP, client_opts(cfg))
         t.clients.append(c)
-    ok = sim.run_until(lambda: all(sim.client_in_tunnel(c) or not c.alive() for c in t.clients), 200 * US)
+    ok = sim.run_until(lambda: all(sim.client_in_tunnel(c) or not c.alive() for c in t.clients), (500 if cfg.get("slow_start") else 200) * US)
+    t.handshake_s = (k.now - 0) / 1e6
     if not ok or not all(sim.client_in_tunnel(c) for c in t.clients):
         t.why = "handshake-failed:" + ",".join(sim.health(c) for c in t.clients)
         return t
